@@ -396,7 +396,12 @@ impl Scenario for C08 {
             prog::spoil_guard_costs(rng, &mut g, 4);
         }
         let entropy = if rng.bool() { EntropyPlan::Zero } else { EntropyPlan::Prng(rng.next_u64()) };
-        let reference = run_once(&g.prog, &g.env, flags, 0, &AllocCfg::unlimited(), &entropy, 100_000);
+        let junk = if rng.chance(1, 4) { 10 + rng.below(300) as u32 } else { 0 };
+        let base = AllocCfg {
+            junk_atoms: junk,
+            ..AllocCfg::unlimited()
+        };
+        let reference = run_once(&g.prog, &g.env, flags, 0, &base, &entropy, 100_000);
         let traj = trajectory(&reference);
         let (mut fault, budget, mut alloc) = place_fault(rng, &traj);
         // atom / pair caps are not part of this property's comparison space
@@ -404,6 +409,7 @@ impl Scenario for C08 {
             fault = FaultKind::None;
             alloc = AllocCfg::unlimited();
         }
+        alloc.junk_atoms = junk;
         Case08 {
             prog: g.prog.compact(),
             env: g.env,
